@@ -54,6 +54,7 @@ type c15Result struct {
 	infra         string
 	neverFinished bool
 	round2        bool
+	repeat        bool
 	err2          error
 	reqs2         []*NetReq
 }
@@ -255,7 +256,7 @@ func c15Exec(t *testing.T, p *Plan) (r *c15Result) {
 		}
 		r.simTime = time.Since(start)
 		r.reqs, r.wcalls, r.fired = sn.Requests(), dw.calls, sn.Fired
-		if len(w.Logs) >= 2 && p.Cfg.Extra["round2"] != 0 {
+		if (len(w.Logs) >= 2 && p.Cfg.Extra["round2"] != 0) || p.Cfg.Extra["round2"] == 2 {
 			// a second round with the same distributor, fault-free: the witness now answers each log's question with what it
 			// answered for the NEXT log in the first round (whatever passed the checks then belongs to that other log)
 			time.Sleep(time.Minute)
@@ -263,8 +264,12 @@ func c15Exec(t *testing.T, p *Plan) (r *c15Result) {
 			for id, b := range dw.answers {
 				first[id] = b
 			}
-			r.answers = first // the oracle of the first round compares with these
+			r.answers = first                     // the oracle of the first round compares with these
+			r.repeat = p.Cfg.Extra["round2"] == 2 // the second round gets exactly the first round's answers again
 			for i, ld := range w.Logs {
+				if r.repeat {
+					break
+				}
 				o := w.Logs[(i+1)%len(w.Logs)]
 				dw.answers[ld.ID] = first[o.ID]
 				delete(dw.errs, ld.ID)
@@ -331,7 +336,42 @@ func oracleC15(p *Plan, r *c15Result) []Violation {
 		add("log_skipped_after_failure", "cycle_never_ended", fmt.Sprintf("DistributeOnce was still running after 1000 simulated seconds (answers %v, network %v, client timeout %q, %d requests so far): the remaining logs are never attempted and no result is reported", r.kinds, r.net, p.Cfg.Notes["client_timeout"], len(r.reqs)))
 		return out
 	}
-	if r.round2 {
+	if r.round2 && r.repeat {
+		// the same answers again: what was refused the first time is refused again (nothing learnt in one cycle makes an
+		// unverifiable answer pushable in the next)
+		bad := 0
+		for i, ld := range w.Logs {
+			kind := "valid"
+			if i < len(r.kinds) {
+				kind = r.kinds[i]
+			}
+			n := 0
+			var first *NetReq
+			for _, q := range r.reqs2 {
+				if strings.Contains(q.Path, ld.ID) {
+					if n == 0 {
+						first = q
+					}
+					n++
+				}
+			}
+			if strings.HasPrefix(kind, "valid") {
+				// (an unchanged checkpoint that is not pushed a second time is no violation; one that is pushed carries the answer)
+				if n > 1 || (n == 1 && string(first.Body) != string(r.answers[ld.ID])) {
+					add("put_body_modified", "later_round", fmt.Sprintf("second round with the same answers (%v), fault-free network: log %d (answer %s) saw %d request(s) carrying its ID, the first with body %s; expected at most one PUT of the witness's answer", r.kinds, i, kind, n, short(first.Body)))
+				}
+				continue
+			}
+			bad++
+			if n > 0 {
+				add("put_for_unverified", "in_a_later_round/"+kind, fmt.Sprintf("second round with the same answers (%v): log %d's answer was %q both times, yet in the second round %s %s was sent with body %s", r.kinds, i, kind, first.Method, first.Path, short(first.Body)))
+			}
+		}
+		if bad > 0 && r.err2 == nil {
+			add("error_count_wrong", "nil_in_a_later_round", fmt.Sprintf("second round with the same answers (%v): %d logs could not be distributed but DistributeOnce returned nil", r.kinds, bad))
+		}
+		r.wcalls = r.wcalls[:min(len(r.wcalls), len(w.Logs))]
+	} else if r.round2 {
 		// nothing the witness answered in round 2 is a checkpoint of the log it was asked about
 		// (with two logs, "another log's checkpoint" as log 1's first-round answer IS a checkpoint of log 0, and vice versa)
 		legit := 0
@@ -445,7 +485,7 @@ func init() {
 	register(&Scenario{
 		Prop:  "C15",
 		Level: "exploration",
-		Rule:  "rest.Distributor.DistributeOnce over 1..6 logs on the fake clock; per log the (stub) witness answers one of {valid, valid with extra lines, valid and large, missing, error, wrong log key, no witness signature, invalid witness signature, other witness's signature, corrupted, another log's checkpoint, empty, garbage}; the distributor service (behind simnet) answers each PUT with one of {200, 201, 4xx, 5xx, dropped request, dropped response, redirect 301/302/307/308, truncated body, stall past the client timeout, delay}; witness key names incl. characters that need escaping; oracle on the stub's request log and the returned error; non-trivial = at least one invalid answer or network fault AND at least one valid log in the same cycle; distinct = distinct (answer multiset, network fault multiset) pairs",
+		Rule:  "rest.Distributor.DistributeOnce over 1..6 logs on the fake clock; per log the (stub) witness answers one of {valid, valid with extra lines, valid and large, missing, error, wrong log key, no witness signature, invalid witness signature, other witness's signature, corrupted, another log's checkpoint, empty, garbage}; the distributor service (behind simnet) answers each PUT with one of {200, 201, 4xx, 5xx, dropped request, dropped response, redirect 301/302/307/308, truncated body, stall past the client timeout, delay}; witness key names incl. characters that need escaping; a third of the runs serve a second round with the same Distributor (each log answered with another log's first-round answer, or exactly the same answers again: nothing refused in one cycle is pushed in the next); oracle on the stub's request log and the returned error; non-trivial = at least one invalid answer or network fault AND at least one valid log in the same cycle; distinct = distinct (answer multiset, network fault multiset) pairs",
 		Gen: func(r *Rng, tier string, n uint64) *Plan {
 			p := &Plan{Scenario: "dist"}
 			nl := r.Range(1, 6)
@@ -477,6 +517,9 @@ func init() {
 			}
 			if n%3 == 0 {
 				p.Cfg.Extra = map[string]int64{"round2": 1} // the same distributor serves a second round (answers swapped between logs)
+				if n%2 == 0 {
+					p.Cfg.Extra["round2"] = 2 // ... or exactly the same answers again
+				}
 			}
 			return p
 		},
